@@ -589,23 +589,50 @@ func (e *Engine) VerifyFunc(key string) {
 				fresh = append(fresh, n)
 			}
 		}
-		if len(gone) == len(fresh) {
+		// candidate 1: declarations kept their places, a changed name stands where its old name stood
+		posMap, posScore, posOK := map[string]string{}, 0, len(olds) == len(news)
+		if posOK {
+			keptOld, keptNew := map[string]int{}, map[string]int{}
+			for _, o := range olds {
+				keptOld[o.name]++
+			}
+			for _, n := range news {
+				keptNew[n.name]++
+			}
+			for i := range olds {
+				if olds[i].name == news[i].name {
+					continue
+				}
+				if keptNew[olds[i].name] >= keptOld[olds[i].name] || keptOld[news[i].name] >= keptNew[news[i].name] {
+					posOK = false
+					break
+				}
+				if _, dup := posMap[olds[i].name]; !dup {
+					posMap[olds[i].name] = news[i].name
+				}
+				if olds[i].typ != "" && olds[i].typ == news[i].typ {
+					posScore++
+				}
+			}
+		}
+		// candidate 2: names that disappeared matched with names that appeared, by type first, then in order
+		typMap, typScore, typOK := map[string]string{}, 0, len(gone) == len(fresh)
+		if typOK {
 			used := make([]bool, len(fresh))
 			matched := make([]bool, len(gone))
-			// same type, in order within that type
 			for gi, g := range gone {
 				for k, f := range fresh {
 					if !used[k] && g.typ != "" && g.typ == f.typ {
 						used[k] = true
 						matched[gi] = true
-						if _, dup := fc.rename[g.name]; !dup {
-							fc.rename[g.name] = f.name
+						typScore++
+						if _, dup := typMap[g.name]; !dup {
+							typMap[g.name] = f.name
 						}
 						break
 					}
 				}
 			}
-			// the rest in declaration order
 			k := 0
 			for gi, g := range gone {
 				if matched[gi] {
@@ -616,11 +643,17 @@ func (e *Engine) VerifyFunc(key string) {
 				}
 				if k < len(fresh) {
 					used[k] = true
-					if _, dup := fc.rename[g.name]; !dup {
-						fc.rename[g.name] = fresh[k].name
+					if _, dup := typMap[g.name]; !dup {
+						typMap[g.name] = fresh[k].name
 					}
 				}
 			}
+		}
+		switch {
+		case posOK && (!typOK || posScore >= typScore):
+			fc.rename = posMap
+		case typOK:
+			fc.rename = typMap
 		}
 		if len(fc.rename) > 0 {
 			e.note(fmt.Sprintf("%s: local variables renamed since the contract was written %v; the contract is read with the new names", shortKey(key), fc.rename))
